@@ -7,6 +7,7 @@ Stable API
     canon(value, tree=None, pod=None)  Python value (rich or plain-data) -> canonical JSON-able value
     to_py(tree, cvalue, pod=False)     canonical value -> Python value in rich / plain-data flavour
     reorder(pyvalue, k)                the same value with every mapping inside it in another key order
+    subspecs(spec_obj)                 the spec objects nested in a spec object, innermost first
 
 Tree records and canonical values are documented at the top of specs/Combinators.tla.  Fields the
 TLA+ side ignores (Python-only decorations): template.dc / bitfield.dc (dataclass flavour),
@@ -873,4 +874,42 @@ def key_orders(value) -> list:
     elif dataclasses.is_dataclass(value) and not isinstance(value, type):
         for f in dataclasses.fields(value):
             out += key_orders(getattr(value, f.name))
+    return out
+
+
+# ----------------------------------------------------------------------------------------
+# the spec objects nested in a spec object
+# ----------------------------------------------------------------------------------------
+
+_CHILD_ATTRS = ("_template_spec", "_prim_seq", "_entry_ser", "_len_spec", "_ser_spec", "_choice_specs", "_options",
+                "_child_spec", "_spec", "_bytes_tmpl", "_enum_spec", "_flag_spec", "template", "_wrapped_spec", "_wrapped",
+                "_bitfield_spec", "_elem_specs")
+
+
+def subspecs(obj, _seen=None) -> list:
+    """Every spec object nested in `obj` (not `obj` itself), innermost first, each once."""
+    seen = _seen if _seen is not None else {id(obj)}
+    out = []
+
+    def visit(x):
+        if isinstance(x, dict):
+            for v in x.values():
+                visit(v)
+        elif isinstance(x, (list, tuple)):
+            for v in x:
+                visit(v)
+        elif (isinstance(x, se.SerializableBase) or (isinstance(x, type) and issubclass(x, se.SerializableBase))) \
+                and id(x) not in seen:
+            seen.add(id(x))
+            out.extend(subspecs(x, seen))
+            out.append(x)
+
+    if isinstance(obj, type):
+        return out
+    for a in _CHILD_ATTRS:
+        try:
+            v = object.__getattribute__(obj, a)
+        except AttributeError:
+            continue
+        visit(v)
     return out
